@@ -22,9 +22,20 @@ generated definition and the theorem no longer checks.
 Everything that is not understood raises TranslateError (reported as a broken extraction) — nothing is skipped,
 except: attributes other than `cfg` (`#[inline]`, `#[allow]`, …), `use` items, and nested `fn` items (which are
 translated when they are called).  `#[cfg(…)]` is evaluated with the spec's `cfg` table (unknown keys are errors).
-`unsafe { … }` is a plain block, `get_unchecked(i)` is indexing with a statically checked index.
-Checked arithmetic (`+ - *`) on run-time words is refused (the kernels use `wrapping_*`); on compile-time integers
-it is exact and range-checked against the declared type.
+`unsafe { … }` is a plain block, `get_unchecked(i)` is indexing with a statically checked index (out of range = error,
+as is every slice/array index the source would panic on).  Checked arithmetic (`+ - *`) on run-time words is refused
+(the kernels use `wrapping_*`); on compile-time integers it is exact and range-checked against the declared type.
+Name resolution is conservative: a `const` or `fn` that has two different definitions in the file it is found in is
+an error (qualify it), `module::f(…)` is searched only in the source file that IS that module, `&mut` may only alias
+arrays (struct fields / locals), a run-time `if` is only allowed on a condition the kernel spec declares (`conds`) and
+both branches are executed and merged value by value (`if c then a else b`).
+Primitives outside the crate's kernels are named by the kernel spec: loads/stores (`read_u32v_be`, …: `load_prim`,
+`store_prim` — the destination words become parameters of the generated definition) and the std word methods
+(`rotate_left/right` → `render`, `wrapping_add` → `+`, `^ & | ! << >>` → `^^^ &&& ||| ~~~ <<< >>>`).
+
+Tie theorems: a FAILING kernel check of such a theorem can run for minutes (the kernel explores unfoldings of UInt32/64
+arithmetic down to unary naturals); the tie files therefore set `set_option maxHeartbeats 20000` (a passing check
+needs < 1000), which turns a failure into `(kernel) deterministic timeout` after ~30 s.
 """
 import copy
 import os
@@ -178,11 +189,8 @@ class Sources:
                 lo, hi = lo + sp[0], lo + sp[1]
             if not ok:
                 continue
+            found = []
             for m in re.finditer(r"\b(?:const|static)\s+" + re.escape(name) + r"\s*:", text[lo:hi]):
-                if not mods:
-                    # a top-level name must not be picked from inside a `mod x { … }` of the file when unqualified:
-                    # accept only if brace depth (ignoring fn bodies is not possible textually) — we accept depth<=1
-                    pass
                 j = lo + m.end()
                 depth, k = 0, j
                 eq = None
@@ -199,16 +207,61 @@ class Sources:
                     k += 1
                 if eq is None:
                     raise TranslateError(f"const {path}: no initialiser")
-                return f, text[j:eq], text[eq + 1:k]
+                found.append((text[j:eq], text[eq + 1:k]))
+            if found:
+                norm = {(re.sub(r"\s+", "", a), re.sub(r"\s+", "", b)) for a, b in found}
+                if len(norm) > 1:
+                    raise TranslateError(f"const {path} is ambiguous in {f}: {len(norm)} different definitions (qualify it)")
+                return f, found[0][0], found[0][1]
         return None
 
-    def find_fn(self, name, scope=None, prefer=None):
-        for f in ([prefer] if prefer else []) + [x for x in self.files if x != prefer]:
-            try:
-                hdr, body = find_fn(self.text[f], name, scope)
-                return f, hdr, body
-            except TranslateError:
+    def fn_bodies(self, f, name):
+        """all `fn name … { body }` of file f as (header, body)"""
+        text, out = self.text[f], []
+        for m in re.finditer(r"\bfn\s+" + re.escape(name) + r"\b", text):
+            depth, j = 0, m.end()
+            while j < len(text):
+                c = text[j]
+                if c in "([":
+                    depth += 1
+                elif c in ")]":
+                    depth -= 1
+                elif c == "{" and depth == 0:
+                    end = self.balanced(text, j)
+                    out.append((text[m.start():j + 1], text[j + 1:end - 1]))
+                    break
+                elif c == ";" and depth == 0:
+                    break
+                j += 1
+        return out
+
+    def module_files(self, qual):
+        """files that ARE the module `qual` (…/qual.rs or …/qual/mod.rs)"""
+        return [f for f in self.files if f.endswith("/" + qual + ".rs") or f.endswith("/" + qual + "/mod.rs")]
+
+    def find_fn(self, name, scope=None, prefer=None, qual=None):
+        """(file, header, body).  With `scope` (regex, e.g. an impl header): the first fn after it (kernel_translate.find_fn).
+        Without: the fn must be unique in the file it is found in (else ambiguous -> error).  `qual`: module qualifier of
+        the call path (`reference::f`): only files that are that module are searched."""
+        files = ([prefer] if prefer else []) + [x for x in self.files if x != prefer]
+        if qual is not None:
+            files = self.module_files(qual)
+            if not files:
+                raise TranslateError(f"module `{qual}` of `{qual}::{name}` is not among the kernel's source files")
+        for f in files:
+            if scope is not None:
+                try:
+                    hdr, body = find_fn(self.text[f], name, scope)
+                    return f, hdr, body
+                except TranslateError:
+                    continue
+            bodies = self.fn_bodies(f, name)
+            if not bodies:
                 continue
+            norm = {re.sub(r"\s+", "", h + b) for h, b in bodies}
+            if len(norm) > 1:
+                raise TranslateError(f"fn {name} is ambiguous in {f}: {len(norm)} different definitions")
+            return f, bodies[0][0], bodies[0][1]
         return None
 
     def has_tuple_struct(self, name):
@@ -351,9 +404,9 @@ class Macro:
         """identifiers bound by `let` patterns written in the macro body itself (hygiene: they are local)"""
         names, i = set(), 0
         while i < len(body):
-            if body[i][0] == "id" and body[i][1] == "let":
+            if body[i][0] == "id" and body[i][1] in ("let", "for"):
                 j = i + 1
-                while j < len(body) and not isop(body[j], "=", ":", ";"):
+                while j < len(body) and not isop(body[j], "=", ":", ";") and not (body[j][0] == "id" and body[j][1] == "in"):
                     t = body[j]
                     if t[0] == "id" and t[1] not in ("mut", "ref", "_") and not (j + 1 < len(body) and isop(body[j + 1], "(", "::")) \
                             and not (j > 0 and isop(body[j - 1], "$")):
@@ -1535,7 +1588,10 @@ class Ex:
             if len(e[2]) != n:
                 raise TranslateError(f"{fname}(…): arity")
             return Tup(fname, [self.ev(a) for a in e[2]])
-        r = self.src.find_fn(fname, None, self.fr.file)
+        quals = [q for q in full.split("::")[:-1] if q not in ("self", "super", "crate")]
+        if len(quals) > 1 or (quals and quals[0][:1].isupper()):
+            raise TranslateError(f"call of `{full}`: only `module::function` paths are supported")
+        r = self.src.find_fn(fname, None, self.fr.file, quals[0] if quals else None)
         if r is None:
             raise TranslateError(f"unknown function {full}")
         args = []
@@ -1728,10 +1784,7 @@ class Ex:
                     self.declare(pat[1], None)
                     continue
                 if init[0] == "ref" and init[1]:
-                    try:
-                        v = self.arr_place(init[2])          # `let r = &mut a;` aliases
-                    except TranslateError:
-                        v = self.ev(init, ty)
+                    v = self.arr_place(init[2])              # `let r = &mut a;` aliases an array; `&mut word` is refused (raises)
                 else:
                     v = self.coerce(vcopy(self.ev(init, ty)), ty)
                 base = pat[1] if pat[0] == "var" else "t"
